@@ -10,7 +10,9 @@ CONSTANTS World,      \* prepared world the behaviours start from (0, 1, 2)
           EKinds,     \* kinds that may be enqueued
           KMax,       \* signatures per message / prefix lengths 0..KMax
           Corrs, Sts, Ns, Rgs, Ts,
-          MaxId, MaxTx, MaxRounds, Signers
+          MaxId, MaxTx, MaxRounds, Signers,
+          Jumps       \* block jumps that may happen at the start of a round (time does not influence the design:
+                      \* the view hides `now`, so the jumps cost nothing and show exactly that)
 VARIABLE ph           \* [r, s, m, v]: round, stage, last (message, validator) that submitted evidence in this round
 \* cfg files cannot hold tuples/functions
 ShareFn == <<3, 1, 1, 1>>          \* total 6: {1,2} holds exactly 2/3, {2,3,4} is one short
@@ -33,7 +35,9 @@ NextMC ==
   \/ \E kind \in EKinds : /\ ph.s <= 0 /\ Enqueue(kind)
                            /\ ph' = [ph EXCEPT !.s = 0, !.sk = IF kind = "uscn" /\ CanEnqueue(kind) THEN @ + 1 ELSE @]
   \/ \E v \in Signers, m \in DOMAIN msgs : Stage(1) /\ Len(msgs[m].sigs) < KMax /\ Sign(v, m)
+  \/ \E d \in Jumps : ph.s <= 0 /\ Advance(d) /\ UNCHANGED ph
   \/ EvidenceMC
   \/ ph.r <= MaxRounds /\ EndBlock /\ ph' = [r |-> ph.r + 1, s |-> 0, m |-> 0, v |-> 0, sk |-> ph.sk]
+View == <<msgs, nextId, txs, processed, live, deploy, active, user, res, routed, applied, ph>>
 Constr == nextId <= MaxId + 1 + ph.sk /\ Cardinality(DOMAIN txs) <= MaxTx /\ ph.r <= MaxRounds
 =============================================================================
